@@ -64,7 +64,11 @@ CLAIMED = {
          "§5 C09", "Lean 4 proof: LTS invariants over an abstract FIFO channel + co-simulation of explored schedules + pipeline-level exploration"),
  "C10": ("Theorems Rx.SubjM.* (C10.lean) on the mirrored state machines of the four subject kinds for ALL call sequences: delivers_to_current, "
          "no_observer_after_terminal, no_observer_after_unsubscribe, registered_alive, terminated_not_registered, plain_log_spec, behavior_handover, "
-         "replay_handover, async_last_only, log_contract. Tie: implementation = object machine on all cases; implementation = SubjM on directly "
+         "replay_handover, async_last_only, log_contract. REFINEMENT (C10Ref*.lean): the object machine's Subject, ReplaySubject and BehaviorSubject macros "
+         "(the call-by-call transliteration of the Rust methods) refine SubjM for every well-numbered call sequence (plain_refines, replay_refines, "
+         "behavior_refines: equal logs, registrations, liveness), and the central C10 theorems are transported to the machine (machine_delivers_to_current, "
+         "machine_no_observer_after_terminal/unsubscribe, machine_replay_handover, machine_behavior_handover); AsyncSubject's refinement is not proved. "
+         "Tie: implementation = object machine on all cases; implementation = SubjM on directly "
          "subscribed call sequences (exhaustive up to length 3/4 + random); observer counts against live subscriptions. AsyncSubject differs from ReactiveX "
          "(per-subscriber buffer) - known finding F17, evaluated against a ReactiveX AsyncSubject spec on every case.",
          "§5 C10", "Lean 4 proof: induction over call sequences of mirrored state machines + per-run differential correspondence"),
